@@ -71,6 +71,7 @@ func init() {
 			ruleInvalidNeverRuns(c, d)
 			ruleInvokeSites(c, d)
 			c.Clause("C02-D3")
+			ruleNullIsAbsent(c, d)
 			ruleIDHandling(c)
 			ruleJSONWhitespace(c)
 			c.Clause("C02-D4")
@@ -99,6 +100,9 @@ func init() {
 			ruleBareObject(c)
 			c.Clause("C13-D3")
 			ruleRawFields(c)
+			if d := dispatchOrUndecided(c, "ROLE.dispatch"); d != nil {
+				ruleInvokeResultsMarshalled(c, d)
+			}
 			c.Clause("C13-D4")
 			ruleMarshalErrorsChecked(c)
 			ruleSendWholeMessages(c)
